@@ -52,31 +52,38 @@ theorem block_get (junk : Nat → Nat) (s : Array Nat) (stride i : Nat) (d : Mat
 def srcVal (junk : Nat → Nat) (s : Array Nat) (stride r c : Nat) : Nat :=
   if c * stride + r < s.size then s.getD (c * stride + r) 0 else junk (c * stride + r)
 
+theorem srcGuardOk_eq (length stride i : Nat) :
+    srcGuardOk length stride i = decide (31 * stride + i + 32 ≤ length) := by
+  simp only [srcGuardOk, network_is_transpose.2.2.2.2.2.2]
+
 theorem blockLoop_succ (junk : Nat → Nat) (s : Array Nat) (stride n i : Nat) (d : Mat Nat 32) :
     blockLoop junk s stride (n + 1) i d =
-      if i + 32 ≤ stride then blockLoop junk s stride n (i + 32) (block junk s stride i d)
+      if i + 32 ≤ stride ∧ 31 * stride + i + 32 ≤ s.size then
+        blockLoop junk s stride n (i + 32) (block junk s stride i d)
       else (i, d) := by
   simp only [blockLoop, network_is_transpose.2.2.2.1, network_is_transpose.2.2.2.2.1,
-    Bool.false_eq_true, if_false]
+    Bool.false_eq_true, if_false, srcGuardOk_eq, decide_eq_true_eq]
 
-/-- the block loop: starting at offset `i` with enough fuel, it stops at an `i'` with
-    `i' + 32 > stride`, having transposed every complete block in between and touched nothing else -/
+/-- the block loop: starting at offset `i` with enough fuel, it stops at an `i'` where either no
+    complete block of rows remains or the furthest load of the next block would leave the symbol
+    buffer, having transposed every block in between and touched nothing else -/
 theorem blockLoop_spec (junk : Nat → Nat) (s : Array Nat) (stride : Nat) :
     ∀ (fuel i : Nat) (d : Mat Nat 32), stride ≤ i + 32 * fuel →
       ∃ i' d', blockLoop junk s stride fuel i d = (i', d') ∧
-        i ≤ i' ∧ stride < i' + 32 ∧ (i' ≤ stride ∨ i' = i) ∧ d'.rows = d.rows ∧
+        i ≤ i' ∧ (stride < i' + 32 ∨ s.size < 31 * stride + i' + 32) ∧ (i' ≤ stride ∨ i' = i) ∧
+        d'.rows = d.rows ∧
         ∀ r c, d'.get r c =
           if i ≤ r ∧ r < i' ∧ c < 32 ∧ r < d.rows then srcVal junk s stride r c else d.get r c := by
   intro fuel
   induction fuel with
   | zero =>
     intro i d h
-    refine ⟨i, d, rfl, Nat.le_refl _, by omega, Or.inr rfl, rfl, ?_⟩
+    refine ⟨i, d, rfl, Nat.le_refl _, Or.inl (by omega), Or.inr rfl, rfl, ?_⟩
     intro r c; rw [if_neg]; omega
   | succ n ih =>
     intro i d h
     rw [blockLoop_succ]
-    by_cases hcond : i + 32 ≤ stride
+    by_cases hcond : i + 32 ≤ stride ∧ 31 * stride + i + 32 ≤ s.size
     · rw [if_pos hcond]
       obtain ⟨i', d', he, h1, h2, h3, h4, h5⟩ := ih (i + 32) (block junk s stride i d) (by omega)
       refine ⟨i', d', he, by omega, h2, by omega, by rw [h4, block_rows], ?_⟩
